@@ -301,7 +301,9 @@ def _input_object_surface(ctx, m, snap0, snapr, site):
     ref = RefSurface(len(now["V"]), F)
     P = surfconn.probes(ref, random.Random(3))
     S = surfconn.script(P)
-    T = surfconn.run_script(ctx, m, S, list(range(len(S))), monitor="input_conn")
+    order = list(range(len(S)))
+    random.Random(len(now["E"]) * 31 + len(S)).shuffle(order)  # any accessor may be the first one asked after the block
+    T = surfconn.run_script(ctx, m, S, order, monitor="input_conn")
     fc = list(zip(now["FC"][0], now["FC"][1]))
     surfconn.verify(ctx, T, ref, now["E"], P, True, monitor="input_conn", face_corners=fc)
 
@@ -398,7 +400,9 @@ def _volume_case(desc, ctx, rng):
         Pn = volconn.probes(refn, random.Random(3))
         Sn = volconn.script(Pn, refn)
         Tn = {}
-        for name, fn in Sn:
+        Sn_order = list(Sn)
+        random.Random(len(now["C"]) * 17 + len(Sn)).shuffle(Sn_order)
+        for name, fn in Sn_order:
             ok, ans = ctx.call(name, fn, m, monitor="input_conn", abort=False)
             if ok:
                 Tn[name] = ans
